@@ -133,6 +133,20 @@ func collinearBases() [][6]float64 {
 	return out
 }
 
+// cfSequences: Fibonacci and Pell numbers below 2^26 (ratios of neighbours are the slowest
+// converging continued fractions).
+func cfSequences() [][]float64 {
+	fib := []float64{1, 1}
+	for fib[len(fib)-1] < 1<<26 {
+		fib = append(fib, fib[len(fib)-1]+fib[len(fib)-2])
+	}
+	pell := []float64{1, 2}
+	for pell[len(pell)-1] < 1<<26 {
+		pell = append(pell, 2*pell[len(pell)-1]+pell[len(pell)-2])
+	}
+	return [][]float64{fib[:len(fib)-1], pell[:len(pell)-1]}
+}
+
 func c10Run(c *engine.Ctx) {
 	n := 5
 	pert := []int{-2, -1, 0, 1, 2}
@@ -209,6 +223,39 @@ func c10Run(c *engine.Ctx) {
 		v[0] = ref.F(ulps(b[0], jobs[i].d0))
 		rec(1, v)
 	})
+	// exactly collinear triples of mixed magnitude (non-representable differences), all orders,
+	// and the same with each ordinate one ulp off
+	mc := mixedCollinear()
+	c.Note("mixed_magnitude_collinear_triples", len(mc))
+	c.Parallel(len(mc), func(i int) {
+		t := mc[i]
+		perms := [][3]int{{0, 1, 2}, {0, 2, 1}, {1, 0, 2}, {1, 2, 0}, {2, 0, 1}, {2, 1, 0}}
+		for _, pm := range perms {
+			v := []ref.F{ref.F(t[2*pm[0]]), ref.F(t[2*pm[0]+1]), ref.F(t[2*pm[1]]), ref.F(t[2*pm[1]+1]), ref.F(t[2*pm[2]]), ref.F(t[2*pm[2]+1])}
+			c10Exec(c, c10Case{Pts: v})
+			for k := 0; k < 6; k++ {
+				for _, d := range []int{-1, 1} {
+					w := append([]ref.F{}, v...)
+					w[k] = ref.F(ulps(float64(w[k]), d))
+					c10Exec(c, c10Case{Pts: w})
+				}
+			}
+		}
+	})
+	// lattice points nearest to a line whose direction has a long continued fraction: consecutive
+	// Fibonacci and Pell numbers up to 2^26 (cross product exactly +-1 or +-2)
+	for _, seq := range cfSequences() {
+		for k := 2; k+1 < len(seq); k++ {
+			a, b, d := seq[k-1], seq[k], seq[k+1]
+			for _, v := range [][]float64{{0, 0, b, d, a, b}, {0, 0, a, b, b, d}, {a, b, 0, 0, b, d}, {0, 0, 2 * a, 2 * b, a, b}, {1, 0, b + 1, d, a + 1, b}} {
+				w := make([]ref.F, 6)
+				for i := range v {
+					w[i] = ref.F(v[i])
+				}
+				c10Exec(c, c10Case{Pts: w})
+			}
+		}
+	}
 	if c.Get("exactly_collinear") == 0 || c.Get("non_collinear") == 0 {
 		c.Warn("vacuous: one of the sign classes is empty")
 	}
